@@ -1,40 +1,41 @@
-From Coq Require Import List Arith Lia Bool Permutation Sorted.
+(* Order independence by sorting (C13 / C14 repairs). Originally the design spike isort_perm_invariant;
+   now stated for the insert / isort of Model/C08Fingerprint.v, with antisymmetry required only on the
+   elements of the collection (unique keys), and instantiated with the (file, name) order on commands. *)
+From Coq Require Import String Ascii List Arith Lia Bool Permutation Sorted.
+Require Import TT.Model.Str TT.Model.C08Fingerprint.
 Import ListNotations.
 
-(* Sorting the discovered files / structs / commands makes the output independent of the hash order:
-   any two enumerations of the same collection sort to the same list. *)
+(* Sorting makes the hash input independent of the enumeration order: any two enumerations of the same
+   collection sort to the same list, provided the order is total, transitive and antisymmetric on the
+   elements of the collection (keys are unique). Stated for the model's insert / isort. *)
 Section SortInv.
 Variable A : Type.
 Variable leb : A -> A -> bool.
 Hypothesis leb_total : forall a b, leb a b = true \/ leb b a = true.
 Hypothesis leb_trans : forall a b c, leb a b = true -> leb b c = true -> leb a c = true.
-Hypothesis leb_antisym : forall a b, leb a b = true -> leb b a = true -> a = b.
-
-Fixpoint insert (x : A) (l : list A) : list A :=
-  match l with [] => [x] | y :: r => if leb x y then x :: l else y :: insert x r end.
-Fixpoint isort (l : list A) : list A := match l with [] => [] | x :: r => insert x (isort r) end.
 
 Definition le (a b : A) : Prop := leb a b = true.
 
-Lemma insert_perm x l : Permutation (x :: l) (insert x l).
-Proof. induction l as [|y r IH]; simpl; auto. destruct (leb x y); auto.
+Lemma insert_perm x l : Permutation (x :: l) (insert leb x l).
+Proof. induction l as [|y r IH]; cbn [insert]; auto. destruct (leb x y); auto.
   eapply perm_trans; [apply perm_swap|]. constructor; auto. Qed.
-Lemma isort_perm l : Permutation l (isort l).
-Proof. induction l; simpl; auto. eapply perm_trans; [|apply insert_perm]. constructor; auto. Qed.
+Lemma isort_perm l : Permutation l (isort leb l).
+Proof. induction l; cbn [isort]; auto. eapply perm_trans; [|apply insert_perm]. constructor; auto. Qed.
 
-Lemma insert_sorted x l : StronglySorted le l -> StronglySorted le (insert x l).
-Proof. induction 1 as [|y r Hr IH Hy]; simpl. repeat constructor.
+Lemma insert_sorted x l : StronglySorted le l -> StronglySorted le (insert leb x l).
+Proof. induction 1 as [|y r Hr IH Hy]; cbn [insert]. repeat constructor.
   destruct (leb x y) eqn:E.
   - constructor. constructor; auto. constructor; auto. rewrite Forall_forall in *. intros z Hz. eapply leb_trans; eauto. apply Hy; auto.
   - constructor; auto. assert (Hyx : le y x) by (destruct (leb_total x y); [congruence|auto]).
     rewrite Forall_forall in *. intros z Hz. apply (Permutation_in _ (Permutation_sym (insert_perm x r))) in Hz.
     destruct Hz as [<-|Hz]; auto. Qed.
-Lemma isort_sorted l : StronglySorted le (isort l).
-Proof. induction l; simpl. constructor. apply insert_sorted; auto. Qed.
+Lemma isort_sorted l : StronglySorted le (isort leb l).
+Proof. induction l; cbn [isort]. constructor. apply insert_sorted; auto. Qed.
 
-(* a sorted list is determined by its elements *)
-Lemma sorted_perm_unique : forall l l', StronglySorted le l -> StronglySorted le l' -> Permutation l l' -> l = l'.
-Proof. induction l as [|x r IH]; intros l' Hs Hs' Hp.
+Lemma sorted_perm_unique : forall l l',
+  (forall a b, In a l -> In b l -> leb a b = true -> leb b a = true -> a = b) ->
+  StronglySorted le l -> StronglySorted le l' -> Permutation l l' -> l = l'.
+Proof. induction l as [|x r IH]; intros l' Ha Hs Hs' Hp.
   - apply Permutation_nil in Hp. auto.
   - destruct l' as [|y r']; [apply Permutation_sym, Permutation_nil in Hp; discriminate|].
     inversion Hs as [|? ? Hr Hx]; subst. inversion Hs' as [|? ? Hr' Hy]; subst.
@@ -42,10 +43,104 @@ Proof. induction l as [|x r IH]; intros l' Hs Hs' Hp.
     { assert (Hxin : In x (y :: r')) by (eapply Permutation_in; eauto; left; auto).
       assert (Hyin : In y (x :: r)) by (eapply Permutation_in; [apply Permutation_sym; eauto|left; auto]).
       destruct Hxin as [->|Hxin]; auto. destruct Hyin as [->|Hyin]; auto.
-      rewrite Forall_forall in *. apply leb_antisym; [apply Hx | apply Hy]; auto. }
-    subst y. f_equal. apply IH; auto. eapply Permutation_cons_inv; eauto. Qed.
+      rewrite Forall_forall in *. apply Ha; [left; auto|right; auto|apply Hx; auto|apply Hy; auto]. }
+    subst y. f_equal. apply IH; auto.
+    + intros a b Hia Hib. apply Ha; right; auto.
+    + eapply Permutation_cons_inv; eauto. Qed.
 
-Theorem isort_perm_invariant l l' : Permutation l l' -> isort l = isort l'.
-Proof. intros Hp. apply sorted_perm_unique; try apply isort_sorted.
-  eapply perm_trans; [apply Permutation_sym, isort_perm|]. eapply perm_trans; [exact Hp|]. apply isort_perm. Qed.
+Theorem isort_perm_invariant l l' :
+  (forall a b, In a l -> In b l -> leb a b = true -> leb b a = true -> a = b) ->
+  Permutation l l' -> isort leb l = isort leb l'.
+Proof. intros Ha Hp. apply sorted_perm_unique; try apply isort_sorted.
+  - intros a b Hia Hib. apply Ha; eapply Permutation_in; try apply Permutation_sym, isort_perm; auto.
+  - eapply perm_trans; [apply Permutation_sym, isort_perm|]. eapply perm_trans; [exact Hp|]. apply isort_perm. Qed.
 End SortInv.
+
+(* ---- the byte-wise string order ---- *)
+Lemma nat_of_ascii_inj a b : nat_of_ascii a = nat_of_ascii b -> a = b.
+Proof. intros H. rewrite <- (ascii_nat_embedding a), <- (ascii_nat_embedding b), H. reflexivity. Qed.
+
+Lemma str_leb_total : forall a b, str_leb a b = true \/ str_leb b a = true.
+Proof. induction a as [|x a IH]; intros [|y b]; cbn [str_leb]; auto.
+  destruct (Nat.ltb_spec (nat_of_ascii x) (nat_of_ascii y)); auto.
+  destruct (Nat.ltb_spec (nat_of_ascii y) (nat_of_ascii x)); auto. Qed.
+
+Lemma str_leb_antisym : forall a b, str_leb a b = true -> str_leb b a = true -> a = b.
+Proof. induction a as [|x a IH]; intros [|y b]; cbn [str_leb]; try discriminate; auto.
+  destruct (Nat.ltb_spec (nat_of_ascii x) (nat_of_ascii y)) as [H1|H1];
+  destruct (Nat.ltb_spec (nat_of_ascii y) (nat_of_ascii x)) as [H2|H2]; try discriminate; try lia.
+  intros Ha Hb. assert (x = y) by (apply nat_of_ascii_inj; lia). subst. f_equal. auto. Qed.
+
+Lemma str_leb_trans : forall a b c, str_leb a b = true -> str_leb b c = true -> str_leb a c = true.
+Proof. induction a as [|x a IH]; intros [|y b] [|z c]; cbn [str_leb]; try discriminate; auto.
+  destruct (Nat.ltb_spec (nat_of_ascii x) (nat_of_ascii y)) as [H1|H1];
+  destruct (Nat.ltb_spec (nat_of_ascii y) (nat_of_ascii x)) as [H1'|H1']; try discriminate; try lia;
+  destruct (Nat.ltb_spec (nat_of_ascii y) (nat_of_ascii z)) as [H2|H2];
+  destruct (Nat.ltb_spec (nat_of_ascii z) (nat_of_ascii y)) as [H2'|H2']; try discriminate; try lia;
+  destruct (Nat.ltb_spec (nat_of_ascii x) (nat_of_ascii z)) as [H3|H3];
+  destruct (Nat.ltb_spec (nat_of_ascii z) (nat_of_ascii x)) as [H3'|H3']; try discriminate; try lia; auto.
+  intros; eapply IH; eauto. Qed.
+
+Lemma str_leb_refl a : str_leb a a = true.
+Proof. destruct (str_leb_total a a); auto. Qed.
+
+Lemma str_eqb_true (a b : str) : str_eqb a b = true <-> a = b.
+Proof. unfold str_eqb. destruct (list_eq_dec ascii_dec a b); split; congruence. Qed.
+Lemma str_eqb_false (a b : str) : str_eqb a b = false <-> a <> b.
+Proof. unfold str_eqb. destruct (list_eq_dec ascii_dec a b); split; congruence. Qed.
+
+(* ---- the order of the repaired hash_commands: by (file, name) ---- *)
+Lemma str_eqb_sym_true (a b : str) : a = b -> str_eqb b a = true.
+Proof. intros ->. apply str_eqb_true. reflexivity. Qed.
+Lemma str_eqb_sym_false (a b : str) : a <> b -> str_eqb b a = false.
+Proof. intros H. apply str_eqb_false. intro E. apply H. symmetry. exact E. Qed.
+
+Lemma cmd_leb_total (a b : command) : cmd_leb a b = true \/ cmd_leb b a = true.
+Proof. unfold cmd_leb. destruct (str_eqb (c_file a) (c_file b)) eqn:E.
+  - apply str_eqb_true in E. rewrite (str_eqb_sym_true _ _ E). apply str_leb_total.
+  - apply str_eqb_false in E. rewrite (str_eqb_sym_false _ _ E). apply str_leb_total. Qed.
+
+Lemma cmd_leb_trans (a b c : command) : cmd_leb a b = true -> cmd_leb b c = true -> cmd_leb a c = true.
+Proof. unfold cmd_leb.
+  destruct (str_eqb (c_file a) (c_file b)) eqn:E1; destruct (str_eqb (c_file b) (c_file c)) eqn:E2.
+  - apply str_eqb_true in E1. apply str_eqb_true in E2.
+    assert (H : str_eqb (c_file a) (c_file c) = true) by (apply str_eqb_true; rewrite E1; exact E2).
+    rewrite H. apply str_leb_trans.
+  - apply str_eqb_true in E1. apply str_eqb_false in E2.
+    assert (H : str_eqb (c_file a) (c_file c) = false).
+    { apply str_eqb_false. rewrite E1. exact E2. }
+    rewrite H. intros _ H2. rewrite E1. exact H2.
+  - apply str_eqb_false in E1. apply str_eqb_true in E2.
+    assert (H : str_eqb (c_file a) (c_file c) = false).
+    { apply str_eqb_false. rewrite <- E2. exact E1. }
+    rewrite H. intros H1 _. rewrite <- E2. exact H1.
+  - apply str_eqb_false in E1. apply str_eqb_false in E2.
+    intros H1 H2. destruct (str_eqb (c_file a) (c_file c)) eqn:E3.
+    + apply str_eqb_true in E3. exfalso. apply E1. apply str_leb_antisym; [exact H1|].
+      rewrite E3. exact H2.
+    + eapply str_leb_trans; eauto. Qed.
+
+Definition cmd_key (k : command) : str * str := (c_file k, c_name k).
+
+Lemma cmd_leb_antisym_keys (a b : command) : cmd_leb a b = true -> cmd_leb b a = true -> cmd_key a = cmd_key b.
+Proof. unfold cmd_leb, cmd_key. destruct (str_eqb (c_file a) (c_file b)) eqn:E.
+  - apply str_eqb_true in E. rewrite (str_eqb_sym_true _ _ E).
+    intros H1 H2. f_equal; [exact E|]. apply str_leb_antisym; auto.
+  - apply str_eqb_false in E. rewrite (str_eqb_sym_false _ _ E).
+    intros H1 H2. exfalso. apply E. apply str_leb_antisym; auto. Qed.
+
+Lemma nodup_key_inj {A B} (f : A -> B) : forall l, NoDup (map f l) -> forall a b, In a l -> In b l -> f a = f b -> a = b.
+Proof. induction l as [|x l IH]; intros Hnd a b Ha Hb E; [destruct Ha|].
+  cbn [map] in Hnd. inversion Hnd as [|? ? Hn Hnd']; subst.
+  destruct Ha as [->|Ha]; destruct Hb as [->|Hb]; auto.
+  - exfalso. apply Hn. rewrite E. apply in_map. exact Hb.
+  - exfalso. apply Hn. rewrite <- E. apply in_map. exact Ha. Qed.
+
+(* the repaired command hash does not depend on the discovery order *)
+Theorem fp_cmds_sorted_order_independent : forall a a' : analysis,
+  NoDup (map cmd_key (a_cmds a)) -> Permutation (a_cmds a) (a_cmds a') -> fp_cmds_sorted a = fp_cmds_sorted a'.
+Proof. intros a a' Hnd Hp. unfold fp_cmds_sorted. f_equal. f_equal.
+  apply isort_perm_invariant; [exact cmd_leb_total|exact cmd_leb_trans| |exact Hp].
+  intros x y Hx Hy H1 H2. eapply nodup_key_inj; eauto. apply cmd_leb_antisym_keys; auto. Qed.
+
+(* while the hash of the pinned code does: see C14_refuted_file_order *)
